@@ -30,7 +30,7 @@ claim('C12', 'DESIGN 4/C12',
       'Each constructor under contract (MixedRadix, MixedRadixSmall, GoodThomasAlgorithm) is verified in mode S under its documented precondition for an arbitrary inner dyn Fft satisfying the trait contract, establishing the type invariant under which perform_fft_* are verified; so any nesting depth is covered by induction over the trait contract.',
       'GoodThomasAlgorithmSmall::new is an assumed contract (iterator chains); other constructors pending. Value-level correctness of composites not decided.')
 claim('C04', 'DESIGN 4/C04',
-      'Verus proves, for every length n < 2^44 and every history of the planner (any well-formed cache state), that FftPlannerScalar::plan_fft designs a recipe whose length is n, builds it without reaching any assert/unwrap/panic of the planner or of the constructors under contract, and returns an instance reporting length n and the requested direction. PrimeFactors::compute is proved to return the prime factorization (product, multiplicities, primality of every factor) for n < 2^48; design_radixn\'s four internal asserts and its exact divisions are discharged by exponent arithmetic over 2^a 3^b 5^c 7^d.',
+      'Verus proves, for every length n < 2^32 and every history of the planner (any well-formed cache state), that FftPlannerScalar::plan_fft designs a recipe whose length is n, builds it without reaching any assert/unwrap/panic of the planner or of the constructors under contract, and returns an instance reporting length n and the requested direction. PrimeFactors::compute is proved to return the prime factorization (product, multiplicities, primality of every factor) for n < 2^48; design_radixn\'s four internal asserts and its exact divisions are discharged by exponent arithmetic over 2^a 3^b 5^c 7^d.',
       'Assumed contracts (listed in evidence): partition_factors, design_butterfly_product, the iterator one-liners has_factors_leq/gt/product_above/find_map/any, constructors of Dft/Radix4/RadixN/Rader/Bluestein/butterflies, A-sqrt (f32 sqrt limit, n < 2^48), A-size. Termination of the mutually recursive design functions is not proved. SSE/AVX planners not covered.')
 claim('C13', 'DESIGN 4/C13-C14',
       'Gate clause only: on the extracted text of FftPlannerAvx::new and FftPlannerSse::new, with CPU feature detection and TypeId as uninterpreted inputs, Verus proves Ok <==> (avx && fma && T in {f32,f64}) resp. (sse4.1 && T in {f32,f64}) and that no panic is reachable; the four compiled-out stub planners return Err(()); FftPlanner::new picks the first available planner in the order AVX, SSE, Neon, WasmSimd, scalar and cannot panic.',
